@@ -105,7 +105,7 @@ def explore(col, kind, calls, depth, shard_i, nshards, cap):
 
 def shard(shard_i, nshards, tier, seed):
     col = lib.Collector()
-    d = 3 if tier == 'quick' else 4
+    d = 3      # both tiers: sequences of 3 (Graph) / 4 (HRG, FGG) calls; the thorough tier enlarges the universe of ids and references instead (350 calls per step)
     with lib.Functions() as fns:
         pass
     ns = explore(col, 'graph', graph_calls(tier), d, shard_i, nshards,
@@ -127,7 +127,7 @@ def main():
         common.do_replay(PID, a.replay)
     t0 = time.time()
     merged = lib.merge(lib.run_sharded('c16', 'shard', a.tier, a.seed))
-    d = 3 if a.tier == 'quick' else 4
+    d = 3
     code = lib.finish(
         PID, a.tier, a.seed, 'other', merged, t0,
         rule='every sequence of up to %d (Graph) / %d (HRG, FGG) public API calls over a small universe: node labels L,M; node ids a,(b),implicit; edge labels f:(L), f:(M) [name clash], g:(L,L), X:(L), X:(M) [clash], c:(); '
